@@ -48,6 +48,37 @@ func checkC07(c *Ctx) {
 	c.R.Extra["client_functions"] = len(fns)
 
 	// ---- R-assert
+	// decoded data travels down the client's parse functions as map[string]any / []any / any parameters
+	seenP := map[*ssa.Parameter]bool{}
+	peerParam = func(p *ssa.Parameter, depth int) bool {
+		fn := p.Parent()
+		if fn == nil || seenP[p] || depth > 12 || !clientSide(c, fn) {
+			return false
+		}
+		seenP[p] = true
+		defer delete(seenP, p)
+		idx := -1
+		for i, q := range fn.Params {
+			if q == p {
+				idx = i
+			}
+		}
+		for _, e := range ir.Callers(c.G, fn) {
+			if e.Site == nil || !c.P.IsLib(e.Caller.Func) {
+				continue
+			}
+			args := e.Site.Common().Args
+			off := 0
+			if e.Site.Common().IsInvoke() {
+				off = 1
+			}
+			if idx-off >= 0 && idx-off < len(args) && peerDerived(args[idx-off], depth+1) {
+				return true
+			}
+		}
+		return false
+	}
+	defer func() { peerParam = nil }()
 	all, bad := unguardedAssertions(c, fns)
 	for _, ta := range bad {
 		c.R.Violate("R-assert", "unguarded assertion "+assertKey(ta)+" in "+fname(ta.Parent()), c.Pos(ta.Pos()),
